@@ -45,7 +45,7 @@ def decodable_oracle(kind, payload):
         return False
 
 
-async def _run(frames, net, consumers, paced=False):
+async def _run(frames, net, consumers, paced=False, slow_entry=0):
     from pyplumio.protocol import AsyncProtocol
     rec = PI.Recorder()
     rec.install()
@@ -54,6 +54,13 @@ async def _run(frames, net, consumers, paced=False):
         proto = AsyncProtocol(ethernet_parameters=eth, wireless_parameters=wlan, consumers_count=consumers)
         reader = asyncio.StreamReader()
         writer = PI.FakeWriter()
+        if slow_entry:
+            # a user subscribed to the device entry is slow: while the first frame's consumer publishes the entry (holding the
+            # entry lock) the other consumers wait and further frames pile up on the read queue
+            async def on_entry(dev):
+                for _ in range(slow_entry):
+                    await asyncio.sleep(0)
+            proto.subscribe("ecomax", on_entry)
         proto.connection_established(reader, writer)
         await PI.settle()
         for f in frames:
@@ -97,7 +104,7 @@ class C09(Prop):
             "kinds, controller requests (program version, check device), frames with a valid envelope but an undecodable payload (every "
             "truncation point of a captured payload, random bytes; decodability decided by the real decoder on a fresh device), frames from "
             "senders without a device class (0x56, 0x00) and from ecoSTER; 1-3 consumers, often more bad frames than consumers; frames arrive in "
-            "one burst or one at a time with the loop settled in between (paced); a quarter of the sequences contain a run of 2-8 undecodable frames of one kind followed by valid frames of that kind; `delivered` = handle_frame called with the frame and every name its payload decodes to dispatched on the device.  Non-trivial = "
+            "one burst or one at a time with the loop settled in between (paced); in bursts often with a slow user subscriber of the device entry, so that a backlog of frames builds up on the read queue while the entry is published; a quarter of the sequences contain a run of 2-8 undecodable frames of one kind followed by valid frames of that kind; `delivered` = handle_frame called with the frame and every name its payload decodes to dispatched on the device.  Non-trivial = "
             "at least one undecodable / device-less frame followed by a valid one; distinct by case content.")
     assumptions = ["whether a payload decodes is an oracle (the real decoder, evaluated on a fresh device)",
                    "`answered` = the reply is transmitted or waiting in the write queue when the input ends"]
@@ -145,8 +152,9 @@ class C09(Prop):
                   [[rng.randrange(256) for _ in range(4)] for _ in range(3)] + \
                   [True, rng.randrange(5), rng.randrange(101), rng.random() < 0.5, list(rng.choice(["", "home", "zażółć", "x" * 32]).encode())]
             paced = rng.random() < 0.5
-            cases.append({"kind": "paced" if paced else "burst", "frames": frames, "net": net, "consumers": rng.choice([1, 2, 3, 3]),
-                          "paced": paced})
+            slow = 0 if paced else rng.choice([0, 0, 5, 40])
+            cases.append({"kind": ("paced" if paced else "burst") + ("+slow-entry" if slow else ""), "frames": frames, "net": net,
+                          "consumers": rng.choice([1, 2, 3, 3]), "paced": paced, "slow_entry": slow})
         return cases
 
     def _pframes(self, c):
@@ -156,7 +164,7 @@ class C09(Prop):
 
     def run_impl(self, c):
         pf = self._pframes(c)
-        r = vloop.run(_run, c["frames"], c["net"], c["consumers"], c.get("paced", False))
+        r = vloop.run(_run, c["frames"], c["net"], c["consumers"], c.get("paced", False), c.get("slow_entry", 0))
         valid_tags = {p[0] for p in pf if p[3] and p[1] in (0x45, 0x51)}
         # delivered = handle_frame was called with it AND every name its payload decodes to was dispatched on the device
         keys = {f["tag"]: (oracle_keys(f["kind"], bytes(f["payload"])) or []) for f in c["frames"] if f["tag"] in valid_tags and f["sender"] == 0x45}
